@@ -422,8 +422,9 @@ void Model::name_signal(int c, const char *member, const std::string &name) {
 }
 
 void Model::reply_ok(int c, const wire::Msg &call, std::vector<wire::Value> body, bool name_set) {
-  if (call.flags & wire::FL_NO_REPLY_EXPECTED) return;   // driver workloads do not set it; be safe
   Exp e;
+  // NO_REPLY_EXPECTED: "the reply ... should be omitted as an optimisation", it may still be sent
+  e.optional = (call.flags & wire::FL_NO_REPLY_EXPECTED) != 0;
   e.from_bus = true;
   e.m = wire::Msg::method_return(1, call.serial, U(c), std::move(body));
   e.m.set_field(wire::F_SENDER, wire::Value::string(BUS));
